@@ -1,5 +1,3 @@
-from itertools import repeat
-
 import pandas as pd
 
 from typing import Iterable
@@ -22,33 +20,44 @@ def _represent_row_elements(row: Iterable, units: Iterable, na_rep: str = "-", c
     stringification must be done by the client code.
     """
     for col, (val, unit) in enumerate(zip(row, units)):
-        if unit != "text" and pd.isna(val):
-            # Represent NaN-like things, except leave them be in text columns
-            yield na_rep
-        elif unit == "onoff":
-            # Represent obvious booleans as 0's and 1's
-            if val in [True, 1]:
-                yield 1
-            elif val in [False, 0]:
-                yield 0
-            else:
-                # If it isn't an obvious boolean, leave it be
-                yield val
-        elif unit == "text":
-            if val == "" and col == 0:
-                # Prevent illegal empty string in first column
-                yield "-"  # some arbitrary but reasonable sealant
-            else:
-                # Coerce everything to strings
-                yield str(val)
-        elif unit == "datetime":
-            yield pd.to_datetime(val).to_pydatetime()
+        yield _represent_element(val, unit, na_rep, in_first_column=(col == 0))
+
+
+def _represent_element(val, unit: str, na_rep: str, in_first_column: bool):
+    """Representation of one value, given its column's unit and whether that is the first column."""
+    if unit != "text" and pd.isna(val):
+        # Represent NaN-like things, except leave them be in text columns
+        return na_rep
+    elif unit == "onoff":
+        # Represent obvious booleans as 0's and 1's
+        if val in [True, 1]:
+            return 1
+        elif val in [False, 0]:
+            return 0
         else:
-            # Leave everything else be as it is
-            yield val
+            # If it isn't an obvious boolean, leave it be
+            return val
+    elif unit == "text":
+        if val == "" and in_first_column:
+            # Prevent illegal empty string in first column
+            return "-"  # some arbitrary but reasonable sealant
+        else:
+            # Coerce everything to strings
+            return str(val)
+    elif unit == "datetime":
+        return pd.to_datetime(val).to_pydatetime()
+    else:
+        # Leave everything else be as it is
+        return val
 
 
-def _represent_col_elements(values: Iterable, unit: str, na_rep: str = "-", convert_datetime=False):
-    """Prepare column value representations for writing"""
-    # Let's be lazy and just reuse the row code, sending it the same unit forever
-    yield from _represent_row_elements(values, repeat(unit), na_rep, convert_datetime)
+def _represent_col_elements(
+    values: Iterable, unit: str, na_rep: str = "-", convert_datetime=False, first_column: bool = False
+):
+    """Prepare column value representations for writing (transposed layout).
+
+    The empty-string sealant applies to the values of the table's first column only, as in the
+    row-wise layout - not to the first value of every column.
+    """
+    for val in values:
+        yield _represent_element(val, unit, na_rep, in_first_column=first_column)
